@@ -346,7 +346,7 @@ Proof. destruct c as [[sb so] [eb eo]]. unfold csize, cend, cstart, addr, HDR, D
 
 (* a well-formed data chunk: both pointers normalised, positive size, both tags and its own end pointer in place *)
 Definition chunk_at (d : disk) (c : ptr * ptr) : Prop :=
-  gp (fst c) /\ gp (snd c) /\ 0 < csize c /\
+  gp (fst c) /\ gp (snd c) /\ 0 < csize c < 2 ^ 40 /\
   holds d (cstart c) tag_DaTa /\ holds d (cstart c + 4) (dp_enc fa (snd c)) /\ holds d (cend c) tag_dEnD.
 
 Lemma chunk_at_same_out d d' c lo hi :
@@ -420,4 +420,985 @@ Proof.
               (proj1 Ha) eq_refl (dp_enc_len fa _ Hfa) eq_refl Hso Hlen Hle) as (F1 & F2 & F3 & F4 & F5).
   unfold HDR in *.
   split; [exact F1|split; [exact F2|split; [exact F4|split; [exact F3|exact F5]]]].
+Qed.
+
+(* ------------------------------------------------------------------ extensional equality of stores *)
+Definition deq (d d' : disk) : Prop := forall x, dget d x = dget d' x.
+Lemma deq_refl d : deq d d. Proof. intros x; reflexivity. Qed.
+Lemma deq_sym d d' : deq d d' -> deq d' d. Proof. intros H x; symmetry; apply H. Qed.
+Lemma deq_dput d d' a l : 0 <= a -> deq d d' -> deq (dput d a l) (dput d' a l).
+Proof. intros Ha H x. rewrite !dget_dput by auto. now rewrite H. Qed.
+Lemma holds_deq d d' a bs : deq d d' -> holds d a bs -> holds d' a bs.
+Proof. intros E H i Hi. rewrite <- E. auto. Qed.
+
+(* ------------------------------------------------------------------ the zero fill (as repaired by 5177c7b) *)
+Lemma zeros_nth n i : nth i (zeros n) 0 = 0.
+Proof.
+  unfold zeros. destruct (Nat.lt_ge_cases i (Z.to_nat n)).
+  - now apply repeat_nth.
+  - apply nth_overflow. rewrite repeat_length. lia.
+Qed.
+
+Lemma zloop_fix_dget n : forall d b t x, 0 <= b -> 0 <= t -> t <= Z.of_nat n * DBS ->
+  dget (zloop_fix n d (b, 0) t) x = if (b * DBS <=? x) && (x <? b * DBS + t) then Some 0 else dget d x.
+Proof.
+  induction n as [|n IH]; intros d b t x Hb Ht Hn.
+  - simpl in *. assert (t = 0) by lia. subst.
+    destruct (Z.leb_spec (b * DBS) x), (Z.ltb_spec x (b * DBS + 0)); simpl; auto; lia.
+  - cbn [zloop_fix]. destruct (Z.gtb_spec t 0).
+    + cbn [fst snd]. rewrite IH; try lia.
+      2:{ unfold DBS in *. lia. }
+      unfold wr. rewrite dget_dput by (unfold addr, DBS; simpl; lia).
+      rewrite lenZ_zeros by (unfold DBS; lia). unfold addr; cbn [fst snd]. rewrite zeros_nth.
+      unfold DBS in *.
+      repeat match goal with |- context [Z.leb ?u ?v] => destruct (Z.leb_spec u v) end;
+      repeat match goal with |- context [Z.ltb ?u ?v] => destruct (Z.ltb_spec u v) end; simpl; auto; lia.
+    + assert (t = 0) by lia. subst.
+      destruct (Z.leb_spec (b * DBS) x), (Z.ltb_spec x (b * DBS + 0)); simpl; auto; lia.
+Qed.
+
+Lemma zero_fill_deq d cl total : 0 <= fst cl -> 0 <= snd cl < DBS -> 0 < total ->
+  deq (zero_fill cf d cl total) (dput d (addr cl) (zeros total)).
+Proof.
+  intros Hb Ho Ht x. unfold zero_fill. rewrite Hzero.
+  assert (Ha : 0 <= addr cl) by (unfold addr, DBS in *; lia).
+  rewrite (dget_dput (zeros total)) by auto. rewrite lenZ_zeros by lia. rewrite zeros_nth.
+  destruct (Z.gtb_spec total DBS).
+  - rewrite zloop_fix_dget.
+    + unfold wr. rewrite dget_dput by auto. rewrite lenZ_zeros by lia. rewrite zeros_nth.
+      unfold addr, DBS in *.
+      repeat match goal with |- context [Z.leb ?u ?v] => destruct (Z.leb_spec u v) end;
+      repeat match goal with |- context [Z.ltb ?u ?v] => destruct (Z.ltb_spec u v) end; simpl; auto; lia.
+    + lia.
+    + lia.
+    + rewrite Z2Nat.id by (unfold DBS; lia). unfold DBS in *. lia.
+  - unfold wr. rewrite dget_dput by auto. rewrite lenZ_zeros by lia. now rewrite zeros_nth.
+Qed.
+
+Lemma firstn_zeros n : firstn (Z.to_nat n) (zeros n) = zeros n.
+Proof. unfold zeros. apply firstn_all2. rewrite repeat_length. lia. Qed.
+
+(* ADFI_write_data_chunk(.., NULL, ..) has the effect of writing [total_bytes] zeros *)
+Lemma wdc_none d p cb so n :
+  gp p -> 0 < cb < 2 ^ 40 -> 0 <= so -> 0 < n -> so + n <= cb ->
+  exists d', write_data_chunk cf fa d p cb so n None = (Ok tt, d') /\
+    holds d' (addr p) tag_DaTa /\ holds d' (addr p + 4) (dp_enc fa (pnorm (addr p + HDR + cb))) /\
+    holds d' (addr p + HDR + cb) tag_dEnD /\
+    holds d' (addr p + HDR + so) (zeros n) /\
+    (forall x, ~ (addr p <= x < addr p + HDR) -> ~ (addr p + HDR + so <= x < addr p + HDR + so + n) ->
+               ~ (addr p + HDR + cb <= x < addr p + HDR + cb + 4) -> dget d' x = dget d x).
+Proof.
+  intros G Hcb Hso Hn Hle. destruct (gp_nonneg p G) as (Hb & Ho & Ha). pose proof pow_facts as (P1 & P2 & P3 & P4 & P5).
+  pose proof (addr_unfold p) as Ea.
+  unfold write_data_chunk. destruct (Z.gtb_spec (n + so) cb); [lia|].
+  unfold TAG_SIZE, DPS. rewrite adjust_ok by lia. cbn [bindO].
+  rewrite adjust_ok by lia. cbn [bindO].
+  replace (fst p * DBS + (snd p + 4)) with (addr p + 4) by (rewrite addr_unfold; ring).
+  replace (fst p * DBS + (snd p + 4 + 12 + cb)) with (addr p + HDR + cb) by (rewrite addr_unfold; unfold HDR; ring).
+  assert (Hcl : 0 <= fst (pnorm (addr p + 4)) /\ 0 <= snd (pnorm (addr p + 4))).
+  { unfold pnorm, DBS; simpl. lia. }
+  pose proof (addr_pnorm (addr p + 4)) as Ecl. rewrite addr_unfold in Ecl.
+  rewrite adjust_ok by lia.
+  cbn [bindO].
+  replace (fst (pnorm (addr p + 4)) * DBS + (snd (pnorm (addr p + 4)) + so + 12)) with (addr p + HDR + so)
+    by (unfold HDR; lia).
+  unfold zero_src_ok. rewrite Hzero. cbn [orb].
+  eexists. split; [reflexivity|]. unfold wr. rewrite !addr_pnorm.
+  assert (Hlen : lenZ (zeros n) <= n) by (rewrite lenZ_zeros; lia).
+  destruct (four_puts d (addr p) tag_DaTa (dp_enc fa (pnorm (addr p + HDR + cb))) so cb (zeros n) tag_dEnD n
+              (proj1 Ha) eq_refl (dp_enc_len fa _ Hfa) eq_refl Hso Hlen Hle) as (F1 & F2 & F3 & F4 & F5).
+  set (d2 := dput (dput d (addr p) tag_DaTa) (addr p + 4) (dp_enc fa (pnorm (addr p + HDR + cb)))) in *.
+  assert (E : deq (dput (zero_fill cf d2 (pnorm (addr p + HDR + so)) n) (addr p + HDR + cb) tag_dEnD)
+                  (dput (dput d2 (addr p + 16 + so) (zeros n)) (addr p + 16 + cb) tag_dEnD)).
+  { apply deq_dput; [unfold HDR; lia|].
+    replace (addr p + 16 + so) with (addr (pnorm (addr p + HDR + so))) by (rewrite addr_pnorm; unfold HDR; ring).
+    apply zero_fill_deq; unfold pnorm, DBS, HDR; simpl; lia. }
+  apply deq_sym in E. unfold HDR in *.
+  split; [eapply holds_deq; eauto|split; [eapply holds_deq; eauto|split; [eapply holds_deq; eauto|split; [eapply holds_deq; eauto|]]]].
+  intros x H1 H2 H3. rewrite <- E. apply F5; auto.
+Qed.
+
+(* ------------------------------------------------------------------ ADFI_read_data_chunk *)
+Lemma rdc_ok d c cb so n : chunk_at d c -> cb <= csize c -> 0 <= so -> 0 < n -> so + n <= cb ->
+  read_data_chunk fa d (fst c) cb so n = Ok (drd d (cstart c + HDR + so) (Z.to_nat n)).
+Proof.
+  intros (G1 & G2 & S & T1 & P & T2) Hcb Hso Hn Hle.
+  destruct (gp_nonneg _ G1) as (Hb & Ho & Ha). destruct (gp_nonneg _ G2) as (Hb2 & Ho2 & Ha2).
+  pose proof pow_facts as (P1 & P2 & P3 & P4 & P5).
+  pose proof (csize_addr c) as Ec. unfold cstart, cend, HDR in *.
+  unfold read_data_chunk. destruct (Z.gtb_spec (n + so) cb); [lia|].
+  rewrite (read_chunk_length_holds d (fst c) tag_DaTa (snd c)); auto. cbn [bind].
+  rewrite tag4_refl_DaTa. cbn [negb].
+  rewrite (read_tag_holds d (snd c) tag_dEnD); auto. cbn [bind]. rewrite tag4_refl_dEnD. cbn [negb].
+  pose proof (addr_unfold (fst c)) as Ea. pose proof (addr_unfold (snd c)) as Ee.
+  unfold DPS, TAG_SIZE. rewrite adjust_ok by lia. cbn [bind].
+  set (ds := pnorm (fst (fst c) * DBS + (snd (fst c) + so + 12 + 4))).
+  assert (Eds : addr ds = addr (fst c) + 16 + so) by (unfold ds; rewrite addr_pnorm; lia).
+  pose proof (addr_unfold ds) as Ed.
+  replace (snd (snd c) - snd ds + so + (fst (snd c) - fst ds) * DBS) with (csize c) by lia.
+  destruct (Z.gtb_spec cb (csize c)); [lia|].
+  destruct (Z.leb_spec n 0); [lia|].
+  unfold rd. rewrite Eds. reflexivity.
+Qed.
+
+(* ------------------------------------------------------------------ data-chunk tables *)
+Definition tbytes (es : list (ptr * ptr)) : bytes := flat_map (fun c => dp_enc fa (fst c) ++ dp_enc fa (snd c)) es.
+Lemma tbytes_len es : lenZ (tbytes es) = 24 * lenZ es.
+Proof.
+  induction es as [|c r IH]; [reflexivity|]. unfold tbytes in *. cbn [flat_map]. rewrite !lenZ_app, IH, lenZ_cons.
+  unfold lenZ at 1 2. rewrite !dp_enc_len by auto. lia.
+Qed.
+
+Definition ptrs_gp (es : list (ptr * ptr)) : Prop := Forall (fun c => gp (fst c) /\ gp (snd c)) es.
+
+Lemma pnorm_nonneg a : 0 <= a -> 0 <= fst (pnorm a) /\ 0 <= snd (pnorm a) < DBS.
+Proof. intros H. unfold pnorm, DBS. cbn [fst snd]. lia. Qed.
+
+Lemma lenZ_dp_enc p : lenZ (dp_enc fa p) = 12.
+Proof. unfold lenZ. rewrite dp_enc_len by auto. reflexivity. Qed.
+
+Lemma dput_app x : forall d a y, dput d a (x ++ y) = dput (dput d a x) (a + lenZ x) y.
+Proof.
+  induction x as [|b r IH]; intros d a y; simpl.
+  - rewrite lenZ_nil. f_equal. lia.
+  - rewrite IH, lenZ_cons. f_equal. lia.
+Qed.
+
+Lemma write_entries_deq es : forall d q, ptrs_gp es -> 0 <= fst q -> 0 <= snd q -> addr q + 24 * lenZ es < 2 ^ 59 ->
+  exists d', write_entries fa es d q = (Ok tt, d') /\ deq d' (dput d (addr q) (tbytes es)).
+Proof.
+  induction es as [|[s e] r IH]; intros d q G Hb Ho Hs.
+  - eexists. split; [reflexivity|]. apply deq_refl.
+  - inversion G as [|? ? [G1 G2] Gr]; subst. cbn [write_entries].
+    pose proof (addr_unfold q) as Eq. rewrite lenZ_cons in Hs. pose proof (lenZ_nonneg r).
+    assert (P : 2 ^ 59 < 2 ^ 60) by reflexivity. unfold DPS.
+    destruct q as [qb qo]. cbn [fst snd] in *. assert (0 <= qb * DBS) by (unfold DBS; lia).
+    rewrite adjust_ok by lia. cbn [bindO].
+    set (dp1 := pnorm (qb * DBS + qo)).
+    assert (E1 : addr dp1 = qb * DBS + qo) by apply addr_pnorm. pose proof (addr_unfold dp1) as U1.
+    assert (N1 : 0 <= fst dp1 /\ 0 <= snd dp1 < DBS) by (apply pnorm_nonneg; lia).
+    rewrite adjust_ok by lia.
+    set (dp3 := pnorm (fst dp1 * DBS + (snd dp1 + 12))).
+    assert (E3 : addr dp3 = qb * DBS + qo + 12) by (unfold dp3; rewrite addr_pnorm; lia).
+    pose proof (addr_unfold dp3) as U3.
+    assert (N3 : 0 <= fst dp3 /\ 0 <= snd dp3 < DBS) by (apply pnorm_nonneg; lia).
+    destruct (IH (wr (wr d dp1 (dp_enc fa s)) dp3 (dp_enc fa e)) (fst dp3, snd dp3 + 12)) as (d' & R & Dq); auto;
+      cbn [fst snd]; try lia.
+    { rewrite addr_unfold. cbn [fst snd]. lia. }
+    exists d'. split; [exact R|].
+    intros x. rewrite Dq. unfold wr, tbytes. cbn [flat_map]. fold (tbytes r).
+    rewrite <- app_assoc, !dput_app. rewrite !lenZ_dp_enc.
+    rewrite E1, E3. rewrite (addr_unfold (fst dp3, snd dp3 + 12)), (addr_unfold (qb, qo)). cbn [fst snd].
+    replace (fst dp3 * DBS + (snd dp3 + 12)) with (qb * DBS + qo + 12 + 12) by lia. reflexivity.
+Qed.
+
+Definition table_at (d : disk) (t : ptr) (es : list (ptr * ptr)) : Prop :=
+  gp t /\ ptrs_gp es /\ addr t + 20 + 24 * lenZ es < 2 ^ 44 /\
+  holds d (addr t) tag_DCtb /\ holds d (addr t + 4) (dp_enc fa (pnorm (addr t + HDR + 24 * lenZ es))) /\
+  holds d (addr t + HDR) (tbytes es) /\ holds d (addr t + HDR + 24 * lenZ es) tag_dcTE.
+
+Lemma write_table_ok d t es : gp t -> ptrs_gp es -> addr t + 20 + 24 * lenZ es < 2 ^ 44 ->
+  exists d', write_table fa d t es = (Ok tt, d') /\ table_at d' t es /\
+             same_out d d' (addr t) (addr t + 20 + 24 * lenZ es).
+Proof.
+  intros G Ge Hs. destruct (gp_nonneg t G) as (Hb & Ho & Ha). pose proof pow_facts as (P1 & P2 & P3 & P4 & P5).
+  pose proof (addr_unfold t) as Ea. pose proof (lenZ_nonneg es) as Hn.
+  unfold write_table, TAG_SIZE, DPS. rewrite adjust_ok by lia. cbn [bindO].
+  set (dp := pnorm (fst t * DBS + (snd t + 4))).
+  assert (Edp : addr dp = addr t + 4) by (unfold dp; rewrite addr_pnorm; lia).
+  pose proof (addr_unfold dp) as Udp.
+  assert (Ndp : 0 <= fst dp /\ 0 <= snd dp < DBS) by (apply pnorm_nonneg; lia).
+  rewrite adjust_ok by lia. cbn [bindO].
+  replace (fst dp * DBS + (snd dp + 12 + lenZ es * 2 * 12)) with (addr t + HDR + 24 * lenZ es) by (unfold HDR; lia).
+  destruct (write_entries_deq es (wr (wr d t tag_DCtb) dp (dp_enc fa (pnorm (addr t + HDR + 24 * lenZ es)))) (fst dp, snd dp + 12))
+    as (d3 & R & D3); auto; cbn [fst snd]; try lia.
+  { rewrite addr_unfold. cbn [fst snd]. assert (2 ^ 44 < 2 ^ 59) by reflexivity. lia. }
+  rewrite R. cbn [bindR]. eexists. split; [reflexivity|].
+  unfold wr in *. rewrite addr_pnorm. rewrite Edp in *.
+  rewrite (addr_unfold (fst dp, snd dp + 12)) in D3. cbn [fst snd] in D3.
+  replace (fst dp * DBS + (snd dp + 12)) with (addr t + 16 + 0) in D3 by lia.
+  assert (Hlen : lenZ (tbytes es) <= 24 * lenZ es) by (rewrite tbytes_len; lia).
+  destruct (four_puts d (addr t) tag_DCtb (dp_enc fa (pnorm (addr t + HDR + 24 * lenZ es))) 0 (24 * lenZ es) (tbytes es) tag_dcTE
+              (24 * lenZ es) (proj1 Ha) eq_refl (dp_enc_len fa _ Hfa) eq_refl (Z.le_refl 0) Hlen ltac:(lia)) as (F1 & F2 & F3 & F4 & F5).
+  assert (E : deq (dput d3 (addr t + HDR + 24 * lenZ es) tag_dcTE)
+                  (dput (dput (dput (dput d (addr t) tag_DCtb) (addr t + 4) (dp_enc fa (pnorm (addr t + HDR + 24 * lenZ es))))
+                              (addr t + 16 + 0) (tbytes es)) (addr t + 16 + 24 * lenZ es) tag_dcTE)).
+  { unfold HDR. apply deq_dput; [lia|exact D3]. }
+  apply deq_sym in E. unfold HDR in *. split.
+  - unfold table_at. split; [exact G|]. split; [exact Ge|]. split; [exact Hs|]. unfold HDR.
+    split; [exact (holds_deq _ _ _ _ E F1)|split; [exact (holds_deq _ _ _ _ E F2)|split; [|exact (holds_deq _ _ _ _ E F4)]]].
+    pose proof (holds_deq _ _ _ _ E F3) as X. rewrite Z.add_0_r in X. exact X.
+  - intros x Hx. rewrite <- E. apply F5; lia.
+Qed.
+
+Lemma read_entries_ok es : forall d tmp, ptrs_gp es -> 0 <= fst tmp -> 0 <= snd tmp -> addr tmp + 12 + 24 * lenZ es < 2 ^ 59 ->
+  holds d (addr tmp + 12) (tbytes es) -> read_entries fa (length es) d tmp = Ok es.
+Proof.
+  induction es as [|[s e] r IH]; intros d tmp G Hb Ho Hs H; [reflexivity|].
+  inversion G as [|? ? [G1 G2] Gr]; subst. cbn [length read_entries].
+  pose proof (addr_unfold tmp) as Eq. rewrite lenZ_cons in Hs. pose proof (lenZ_nonneg r).
+  assert (P : 2 ^ 59 < 2 ^ 60) by reflexivity. unfold DPS.
+  assert (0 <= fst tmp * DBS) by (unfold DBS; lia).
+  unfold tbytes in H. cbn [flat_map] in H. fold (tbytes r) in H.
+  rewrite <- app_assoc in H. apply holds_app in H. destruct H as [K1 H]. apply holds_app in H. destruct H as [K2 K3].
+  rewrite !lenZ_dp_enc in *.
+  rewrite adjust_ok by lia. cbn [bind].
+  set (t1 := pnorm (fst tmp * DBS + (snd tmp + 12))).
+  assert (E1 : addr t1 = addr tmp + 12) by (unfold t1; rewrite addr_pnorm; lia). pose proof (addr_unfold t1) as U1.
+  assert (N1 : 0 <= fst t1 /\ 0 <= snd t1 < DBS) by (apply pnorm_nonneg; lia).
+  rewrite (read_ptr_holds d t1 s) by (auto; rewrite E1; auto). cbn [bind].
+  rewrite adjust_ok by lia. cbn [bind].
+  set (t2 := pnorm (fst t1 * DBS + (snd t1 + 12))).
+  assert (E2 : addr t2 = addr tmp + 24) by (unfold t2; rewrite addr_pnorm; lia). pose proof (addr_unfold t2) as U2.
+  assert (N2 : 0 <= fst t2 /\ 0 <= snd t2 < DBS) by (apply pnorm_nonneg; lia).
+  rewrite (read_ptr_holds d t2 e) by (auto; rewrite E2; replace (addr tmp + 24) with (addr tmp + 12 + 12) by ring; auto).
+  cbn [bind]. rewrite IH; auto; try lia.
+  rewrite E2. replace (addr tmp + 24 + 12) with (addr tmp + 12 + 12 + 12) by ring. exact K3.
+Qed.
+
+Lemma read_table_ok d t es room : table_at d t es -> lenZ es <= room -> read_table fa d t room = Ok es.
+Proof.
+  intros (G & Ge & Hs & T1 & P & B & T2) Hr. destruct (gp_nonneg t G) as (Hb & Ho & Ha).
+  pose proof (addr_unfold t) as Ea. pose proof (lenZ_nonneg es) as Hn. unfold HDR in *.
+  assert (Ge' : gp (pnorm (addr t + 16 + 24 * lenZ es))) by (apply gp_pnorm; lia).
+  unfold read_table. rewrite (read_chunk_length_holds d t tag_DCtb (pnorm (addr t + 16 + 24 * lenZ es))); auto.
+  cbn [bind]. rewrite tag4_refl_DCtb. cbn [negb].
+  set (e := pnorm (addr t + 16 + 24 * lenZ es)).
+  assert (Ee : addr e = addr t + 16 + 24 * lenZ es) by apply addr_pnorm. pose proof (addr_unfold e) as Ue.
+  replace ((fst e - fst t) * DBS + (snd e - snd t) - HDR) with (24 * lenZ es) by (unfold HDR; lia).
+  destruct (Z.ltb_spec (24 * lenZ es) 0); [lia|]. unfold DPS.
+  replace (24 * lenZ es / (2 * 12)) with (lenZ es) by (rewrite Z.mul_comm, Z.div_mul; lia).
+  destruct (Z.ltb_spec room (lenZ es)); [lia|].
+  unfold lenZ at 1. rewrite Nat2Z.id. unfold TAG_SIZE.
+  rewrite (read_entries_ok es d (fst t, snd t + 4)); auto; cbn [fst snd]; try lia.
+  - cbn [bind]. rewrite (read_tag_holds d e tag_dcTE) by (auto; rewrite Ee; auto). cbn [bind].
+    rewrite tag4_refl_dcTE. reflexivity.
+  - rewrite addr_unfold. cbn [fst snd]. assert (2 ^ 44 < 2 ^ 59) by reflexivity. lia.
+  - rewrite addr_unfold. cbn [fst snd]. replace (fst t * DBS + (snd t + 4) + 12) with (addr t + 16) by lia. exact B.
+Qed.
+
+(* ------------------------------------------------------------------ logical bytes: the abstraction *)
+Fixpoint phys (cs : list (ptr * ptr)) (x : Z) : option Z :=
+  match cs with
+  | [] => None
+  | c :: r => if x <? csize c then Some (cstart c + HDR + x) else phys r (x - csize c)
+  end.
+(* the x-th byte of the node's data as the chunk list cs places it *)
+Definition absb (d : disk) (cs : list (ptr * ptr)) (x : Z) : option Z :=
+  if x <? 0 then None else match phys cs x with Some a => dget d a | None => None end.
+Definition lread (d : disk) (cs : list (ptr * ptr)) (x n : Z) : list (option Z) := map (absb d cs) (zrange x n).
+
+Lemma zr_length n : forall a, length (zr a n) = n.
+Proof. induction n; intros; simpl; auto. Qed.
+Lemma zr_app n m : forall a, zr a (n + m) = zr a n ++ zr (a + Z.of_nat n) m.
+Proof.
+  induction n as [|n IH]; intros a; simpl.
+  - f_equal. lia.
+  - f_equal. rewrite IH. do 2 f_equal. lia.
+Qed.
+Lemma zrange_app a n m : 0 <= n -> 0 <= m -> zrange a (n + m) = zrange a n ++ zrange (a + n) m.
+Proof. intros Hn Hm. unfold zrange. rewrite Z2Nat.inj_add, zr_app by auto. do 2 f_equal. lia. Qed.
+Lemma lread_app d cs x n m : 0 <= n -> 0 <= m -> lread d cs x (n + m) = lread d cs x n ++ lread d cs (x + n) m.
+Proof. intros. unfold lread. rewrite zrange_app, map_app by auto. reflexivity. Qed.
+Lemma lread_length d cs x n : length (lread d cs x n) = Z.to_nat n.
+Proof. unfold lread, zrange. now rewrite map_length, zr_length. Qed.
+
+Lemma map_zr_ext (f g : Z -> option Z) n : forall a, (forall x, a <= x < a + Z.of_nat n -> f x = g x) -> map f (zr a n) = map g (zr a n).
+Proof.
+  induction n as [|n IH]; intros a H; simpl; auto. f_equal.
+  - apply H. lia.
+  - apply IH. intros x Hx. apply H. lia.
+Qed.
+Lemma map_zr_drd d n : forall a b, (forall i, 0 <= i < Z.of_nat n -> 0 <= a + i) ->
+  map (fun x => dget d (x + b)) (zr a n) = drd d (a + b) n.
+Proof.
+  induction n as [|n IH]; intros a b H; simpl; auto. f_equal.
+  replace (a + b + 1) with (a + 1 + b) by ring. apply IH. intros i Hi. specialize (H (i + 1)). lia.
+Qed.
+
+Lemma csize_cap_nonneg cs : Forall (fun c => 0 < csize c) cs -> 0 <= cap_of cs.
+Proof. induction 1; simpl; lia. Qed.
+
+(* a range inside the first chunk is read from that chunk *)
+Lemma lread_first d c r x n : 0 <= x -> 0 <= n -> x + n <= csize c ->
+  lread d (c :: r) x n = drd d (cstart c + HDR + x) (Z.to_nat n).
+Proof.
+  intros Hx Hn Hle. unfold lread, zrange.
+  replace (cstart c + HDR + x) with (x + (cstart c + HDR)) by ring.
+  rewrite <- (map_zr_drd d (Z.to_nat n) x (cstart c + HDR)) by lia.
+  apply map_zr_ext. intros y Hy. unfold absb. destruct (Z.ltb_spec y 0); [lia|]. cbn [phys].
+  destruct (Z.ltb_spec y (csize c)); [|lia]. f_equal. ring.
+Qed.
+
+(* a range beyond the first chunk is a range of the remaining chunks *)
+Lemma lread_skip d c r x n : 0 <= csize c -> csize c <= x ->
+  lread d (c :: r) x n = lread d r (x - csize c) n.
+Proof.
+  intros Hc Hx. unfold lread, zrange. generalize (Z.to_nat n) as k. intros k. revert x Hx.
+  induction k as [|k IH]; intros x Hx; simpl; auto. f_equal.
+  - unfold absb. destruct (Z.ltb_spec x 0), (Z.ltb_spec (x - csize c) 0); try lia. cbn [phys].
+    destruct (Z.ltb_spec x (csize c)); [lia|]. reflexivity.
+  - replace (x - csize c + 1) with (x + 1 - csize c) by ring. apply IH. lia.
+Qed.
+
+Lemma absb_same_out d d' cs x lo hi :
+  same_out d d' lo hi -> (forall a, phys cs x = Some a -> a < lo \/ hi <= a) -> absb d' cs x = absb d cs x.
+Proof.
+  intros S H. unfold absb. destruct (x <? 0); auto. destruct (phys cs x) as [a|] eqn:E; auto.
+Qed.
+
+(* ------------------------------------------------------------------ the chunk-table invariant *)
+Definition ext (c : ptr * ptr) : Z * Z := (cstart c, cend c + 4).
+Definition disj (a b : Z * Z) : Prop := snd a <= fst b \/ snd b <= fst a.
+Fixpoint pdisj (l : list (Z * Z)) : Prop :=
+  match l with [] => True | x :: r => Forall (disj x) r /\ pdisj r end.
+Definition text (t : ptr) (n : Z) : Z * Z := (addr t, addr t + 20 + 24 * n).
+
+(* cs = the node's data chunks in table order *)
+Definition Inv (h : hdr) (d : disk) (cs : list (ptr * ptr)) : Prop :=
+  h_n h = lenZ cs /\ Forall (chunk_at d) cs /\ pdisj (map ext cs) /\
+  Forall (fun c => csize c mod esz (h_ty h) = 0) cs /\ (cs <> [] -> 0 < esz (h_ty h)) /\
+  match cs with
+  | [] => True
+  | [c] => h_dc h = fst c
+  | _ => table_at d (h_dc h) cs /\ Forall (disj (text (h_dc h) (lenZ cs))) (map ext cs)
+  end.
+
+Lemma chunk_at_gp d c : chunk_at d c -> gp (fst c) /\ gp (snd c) /\ 0 < csize c.
+Proof. intros (G1 & G2 & S & _). split; [auto|split; [auto|lia]]. Qed.
+
+Lemma Forall_chunk_ptrs d cs : Forall (chunk_at d) cs -> ptrs_gp cs.
+Proof. intros H. eapply Forall_impl; [|exact H]. intros c (G1 & G2 & _). auto. Qed.
+
+Lemma chunks_of_inv h d cs : Inv h d cs -> chunks_of fa h d = Ok cs.
+Proof.
+  intros (N & C & _ & _ & _ & M). unfold chunks_of. destruct cs as [|c [|c2 r]].
+  - rewrite N. reflexivity.
+  - rewrite N. change (lenZ [c]) with 1. cbn [Z.eqb Pos.eqb]. inversion C as [|? ? Hc _]; subst.
+    destruct Hc as (G1 & G2 & S & T1 & P & T2). destruct (gp_nonneg _ G1) as (Hb & Ho & Ha).
+    rewrite M. pose proof (addr_unfold (fst c)) as Ea. pose proof pow_facts as (P1 & _).
+    unfold TAG_SIZE. rewrite adjust_ok by lia. cbn [bind].
+    rewrite (read_ptr_holds d _ (snd c)); auto.
+    + cbn [bind]. now destruct c.
+    + rewrite addr_pnorm. replace (fst (fst c) * DBS + (snd (fst c) + 4)) with (cstart c + 4) by (unfold cstart; lia). exact P.
+  - destruct M as [T _]. rewrite N. pose proof (lenZ_nonneg r).
+    assert (L : lenZ (c :: c2 :: r) = lenZ r + 2) by (rewrite !lenZ_cons; ring). rewrite L.
+    destruct (Z.eqb_spec (lenZ r + 2) 0); [lia|]. destruct (Z.eqb_spec (lenZ r + 2) 1); [lia|].
+    rewrite <- L. rewrite (read_table_ok d (h_dc h) (c :: c2 :: r)); auto; [|lia]. cbn [bind].
+    unfold lenZ. rewrite Nat2Z.id, firstn_all. reflexivity.
+Qed.
+
+(* ------------------------------------------------------------------ ADF_Read_All_Data *)
+Lemma lread_zero d cs x : lread d cs x 0 = [].
+Proof. reflexivity. Qed.
+
+Lemma rall_loop_ok d total : forall cs br, Forall (chunk_at d) cs -> 0 <= br <= total ->
+  rall_loop fa cs d total br =
+    Ok (lread d cs 0 (Z.min (cap_of cs) (total - br)), br + Z.min (cap_of cs) (total - br)).
+Proof.
+  induction cs as [|c r IH]; intros br C Hbr.
+  - cbn [rall_loop cap_of fold_right]. rewrite Z.min_l by lia. rewrite lread_zero. do 2 f_equal. lia.
+  - inversion C as [|? ? Hc Cr]; subst. pose proof (chunk_at_gp _ _ Hc) as (_ & _ & S).
+    assert (Hr : 0 <= cap_of r).
+    { apply csize_cap_nonneg. eapply Forall_impl; [|exact Cr]. intros a Ha. apply (chunk_at_gp _ _ Ha). }
+    cbn [rall_loop]. change (cap_of (c :: r)) with (csize c + cap_of r).
+    set (btr := if br + csize c >? total then total - br else csize c).
+    assert (Eb : btr = Z.min (csize c) (total - br)).
+    { unfold btr. destruct (Z.gtb_spec (br + csize c) total); lia. }
+    clearbody btr.
+    destruct (Z.eqb_spec btr 0) as [E0|E0].
+    + assert (total - br = 0) by lia. rewrite Z.min_r by lia. replace (total - br) with 0 by lia.
+      rewrite lread_zero. do 2 f_equal. lia.
+    + rewrite (rdc_ok d c btr 0 btr) by (auto; lia). cbn [bind].
+      rewrite IH by (auto; lia). cbn [bind].
+      rewrite <- (lread_first d c r 0 btr) by lia.
+      f_equal. f_equal.
+      * destruct (Z.lt_ge_cases (total - br) (csize c)).
+        -- assert (btr = total - br) by lia. replace (total - (br + btr)) with 0 by lia.
+           rewrite (Z.min_r (cap_of r)) by lia. rewrite lread_zero, app_nil_r. f_equal. lia.
+        -- assert (Hb : btr = csize c) by lia. rewrite Hb.
+           set (K := Z.min (cap_of r) (total - (br + csize c))).
+           replace (lread d r 0 K) with (lread d (c :: r) (0 + csize c) K)
+             by (rewrite lread_skip by lia; f_equal; lia).
+           rewrite <- lread_app by (unfold K; lia). f_equal. unfold K. lia.
+      * lia.
+Qed.
+
+Lemma lenZ_0_nil {A} (l : list A) : lenZ l = 0 -> l = [].
+Proof. destruct l; [auto|]. rewrite lenZ_cons. pose proof (lenZ_nonneg l). lia. Qed.
+
+(* the node's data fit the storage it owns *)
+Definition ready (h : hdr) (cs : list (ptr * ptr)) : Prop :=
+  cs <> [] /\ 0 < total_bytes h <= cap_of cs /\ lenZ (h_dims h) <> 0.
+
+Lemma firstn_lenZ {A} (l : list A) : firstn (Z.to_nat (lenZ l)) l = l.
+Proof. unfold lenZ. rewrite Nat2Z.id. apply firstn_all. Qed.
+
+Lemma read_all_ok h d cs : Inv h d cs -> ready h cs ->
+  read_all fa h d = Ok (lread d cs 0 (total_bytes h)).
+Proof.
+  intros I (Ne & T & R). pose proof (chunks_of_inv _ _ _ I) as CO. destruct I as (N & C & _ & _ & Z0 & M).
+  specialize (Z0 Ne). unfold read_all.
+  destruct (Z.eqb_spec (esz (h_ty h)) 0); [lia|]. destruct (Z.eqb_spec (lenZ (h_dims h)) 0); [lia|]. cbn [orb].
+  destruct cs as [|c [|c2 r]]; [congruence| |].
+  - rewrite N. change (lenZ [c]) with 1. cbn [Z.eqb Pos.eqb]. rewrite M.
+    inversion C as [|? ? Hc _]; subst. cbn [cap_of fold_right] in T.
+    rewrite (rdc_ok d c (total_bytes h) 0 (total_bytes h)) by (auto; lia).
+    rewrite Z.add_0_r. rewrite lread_first by lia. now rewrite Z.add_0_r.
+  - destruct M as [Tb _]. rewrite N. pose proof (lenZ_nonneg r).
+    assert (L : lenZ (c :: c2 :: r) = lenZ r + 2) by (rewrite !lenZ_cons; ring). rewrite L.
+    destruct (Z.eqb_spec (lenZ r + 2) 0); [lia|]. destruct (Z.eqb_spec (lenZ r + 2) 1); [lia|].
+    rewrite <- L. rewrite (read_table_ok d (h_dc h) (c :: c2 :: r)) by (auto; lia). cbn [bind].
+    rewrite firstn_lenZ. rewrite rall_loop_ok by (auto; lia). cbn [bind].
+    rewrite Z.sub_0_r, Z.min_r by lia. destruct (Z.ltb_spec (0 + total_bytes h) (total_bytes h)); [lia|]. reflexivity.
+Qed.
+
+(* ------------------------------------------------------------------ ADF_Read_Block_Data *)
+(* [base] = logical offset of the first chunk of [suf]; br = the part of the block that lies before [base] *)
+Lemma rblock_loop_ok d total sb eb : 0 <= sb -> sb < eb -> eb <= total ->
+  forall suf base br, Forall (chunk_at d) suf -> 0 <= base <= total -> total <= base + cap_of suf ->
+  br = Z.min (eb - sb) (Z.max 0 (base - sb)) ->
+  rblock_loop fa suf d total sb eb (eb - sb) base br =
+    Ok (lread d suf (sb + br - base) (eb - sb - br), eb - sb).
+Proof.
+  intros Hsb Hlt Heb. induction suf as [|c r IH]; intros base br C Hbase Hcap Hbr.
+  - cbn [cap_of fold_right] in Hcap. cbn [rblock_loop]. assert (E : br = eb - sb) by lia. rewrite E.
+    replace (eb - sb - (eb - sb)) with 0 by ring. reflexivity.
+  - inversion C as [|? ? Hc Cr]. subst x l. pose proof (chunk_at_gp _ _ Hc) as (_ & _ & S).
+    assert (Hr : 0 <= cap_of r).
+    { apply csize_cap_nonneg. eapply Forall_impl; [|exact Cr]. intros a Ha. apply (chunk_at_gp _ _ Ha). }
+    change (cap_of (c :: r)) with (csize c + cap_of r) in Hcap.
+    cbn [rblock_loop].
+    set (cs := if base + csize c >? total then total - base else csize c).
+    assert (Ecs : cs = Z.min (csize c) (total - base)).
+    { unfold cs. destruct (Z.gtb_spec (base + csize c) total); lia. }
+    clearbody cs.
+    destruct (Z.eqb_spec cs 0) as [E0|E0].
+    { assert (br = eb - sb) by lia. replace (eb - sb - br) with 0 by lia. rewrite lread_zero. f_equal. f_equal. lia. }
+    destruct (Z.geb_spec sb (base + cs)) as [Hskip|Hin].
+    + assert (cs = csize c) by lia.
+      rewrite (IH (base + cs) br); auto; try lia.
+      f_equal. f_equal. rewrite (lread_skip d c r) by lia. f_equal. lia.
+    + set (so := if sb >? base + cs - cs then sb - (base + cs - cs) else 0).
+      assert (Eso : so = Z.max 0 (sb - base)).
+      { unfold so. destruct (Z.gtb_spec sb (base + cs - cs)); lia. }
+      clearbody so.
+      set (btr := if br + (cs - so) >? eb - sb then eb - sb - br else cs - so).
+      assert (Ebtr : btr = Z.min (cs - so) (eb - sb - br)).
+      { unfold btr. destruct (Z.gtb_spec (br + (cs - so)) (eb - sb)); lia. }
+      clearbody btr.
+      destruct (Z.eqb_spec btr 0) as [B0|B0].
+      { cbn [orb]. assert (br = eb - sb) by lia. replace (eb - sb - br) with 0 by lia. rewrite lread_zero. f_equal. f_equal. lia. }
+      destruct (Z.gtb_spec (base + cs - cs) eb) as [Hgt|Hle].
+      { cbn [orb]. exfalso. lia. }
+      cbn [orb].
+      rewrite (rdc_ok d c cs so btr) by (auto; lia). cbn [bind].
+      rewrite (IH (base + cs) (br + btr)); auto; try lia.
+      cbn [bind]. f_equal. f_equal.
+      rewrite <- (lread_first d c r so btr) by lia.
+      replace (sb + br - base) with so by lia.
+      destruct (Z.eq_dec (eb - sb - (br + btr)) 0) as [Z0|Z0].
+      * rewrite Z0, lread_zero, app_nil_r. f_equal. lia.
+      * assert (btr = cs - so) by lia. assert (cs = csize c) by lia.
+        replace (sb + (br + btr) - (base + cs)) with 0 by lia.
+        replace (lread d r 0 (eb - sb - (br + btr))) with (lread d (c :: r) (so + btr) (eb - sb - (br + btr)))
+          by (rewrite lread_skip by lia; f_equal; lia).
+        rewrite <- lread_app by lia. f_equal. lia.
+Qed.
+
+Lemma read_block_ok h d cs b e : Inv h d cs -> ready h cs ->
+  0 <= esz (h_ty h) * (b - 1) -> esz (h_ty h) * (b - 1) < esz (h_ty h) * e -> esz (h_ty h) * e <= total_bytes h ->
+  read_block cf fa h d b e = Ok (lread d cs (esz (h_ty h) * (b - 1)) (esz (h_ty h) * e - esz (h_ty h) * (b - 1))).
+Proof.
+  intros I (Ne & T & R) H0 H1 H2. pose proof (chunks_of_inv _ _ _ I) as CO. destruct I as (N & C & _ & _ & Z0 & M).
+  specialize (Z0 Ne). unfold read_block.
+  destruct (Z.eqb_spec (esz (h_ty h)) 0); [lia|]. destruct (Z.eqb_spec (lenZ (h_dims h)) 0); [lia|]. cbn [orb].
+  destruct (Z.eqb_spec (total_bytes h) 0); [lia|].
+  set (sb := esz (h_ty h) * (b - 1)) in *. set (eb := esz (h_ty h) * e) in *.
+  destruct (Z.ltb_spec sb 0); [lia|]. destruct (Z.gtb_spec sb eb); [lia|]. destruct (Z.gtb_spec eb (total_bytes h)); [lia|].
+  cbn [orb].
+  destruct cs as [|c [|c2 r]]; [congruence| |].
+  - rewrite N. change (lenZ [c]) with 1. cbn [Z.eqb Pos.eqb]. rewrite M.
+    inversion C as [|? ? Hc _]; subst. cbn [cap_of fold_right] in T.
+    rewrite (rdc_ok d c (total_bytes h) sb (eb - sb)) by (auto; lia).
+    rewrite lread_first by lia. reflexivity.
+  - destruct M as [Tb _]. rewrite N. pose proof (lenZ_nonneg r).
+    assert (L : lenZ (c :: c2 :: r) = lenZ r + 2) by (rewrite !lenZ_cons; ring). rewrite L.
+    destruct (Z.eqb_spec (lenZ r + 2) 0); [lia|]. destruct (Z.eqb_spec (lenZ r + 2) 1); [lia|].
+    rewrite <- L. rewrite (read_table_ok d (h_dc h) (c :: c2 :: r)) by (auto; lia). cbn [bind].
+    rewrite firstn_lenZ. rewrite (rblock_loop_ok d (total_bytes h) sb eb) with (br := 0) by (auto; lia). cbn [bind].
+    destruct (Z.ltb_spec (eb - sb) (eb - sb)); [lia|]. do 2 f_equal; lia.
+Qed.
+
+(* ------------------------------------------------------------------ the per-element chunk lookup *)
+Definition sizes_pos (cs : list (ptr * ptr)) : Prop := Forall (fun c => 0 < csize c) cs.
+
+Lemma cap_of_app a b : cap_of (a ++ b) = cap_of a + cap_of b.
+Proof. induction a as [|x r IH]; simpl; [lia|]. fold (cap_of (r ++ b)). fold (cap_of r). lia. Qed.
+Lemma cap_of_cons c r : cap_of (c :: r) = csize c + cap_of r.
+Proof. reflexivity. Qed.
+Lemma sizes_pos_cap cs : sizes_pos cs -> 0 <= cap_of cs.
+Proof. apply csize_cap_nonneg. Qed.
+
+(* the lookup state designates the chunk [l_cur] of cs, preceded by chunks of [l_past] bytes in all *)
+Definition lk_ok (cs : list (ptr * ptr)) (lk : look) : Prop :=
+  exists pre, cs = pre ++ l_cur lk :: l_rest lk /\ l_past lk = cap_of pre /\ l_size lk = csize (l_cur lk).
+
+Lemma lookup_ok cs : sizes_pos cs -> forall rest cur pre rel,
+  cs = pre ++ cur :: rest -> cap_of pre <= rel < cap_of cs ->
+  exists lk, lookup rest cur (cap_of pre) (csize cur) rel = Ok lk /\ lk_ok cs lk /\
+             l_past lk <= rel < l_past lk + l_size lk.
+Proof.
+  intros P. induction rest as [|c r IH]; intros cur pre rel E H.
+  - cbn [lookup]. rewrite E, cap_of_app, cap_of_cons in H. cbn [cap_of fold_right] in H.
+    destruct (Z.geb_spec rel (cap_of pre + csize cur)); [lia|].
+    eexists. split; [reflexivity|]. split; [exists pre; auto|]. cbn [l_past l_size]. lia.
+  - cbn [lookup]. destruct (Z.geb_spec rel (cap_of pre + csize cur)) as [G|G].
+    + specialize (IH c (pre ++ [cur]) rel). rewrite cap_of_app in IH. cbn [cap_of fold_right] in IH.
+      rewrite Z.add_0_r in IH. apply IH; [rewrite <- app_assoc; exact E|lia].
+    + eexists. split; [reflexivity|]. split; [exists pre; auto|]. cbn [l_past l_size]. lia.
+Qed.
+
+Lemma phys_app pre : forall c rest x, sizes_pos pre -> cap_of pre <= x < cap_of pre + csize c ->
+  phys (pre ++ c :: rest) x = Some (cstart c + HDR + (x - cap_of pre)).
+Proof.
+  induction pre as [|p r IH]; intros c rest x P H.
+  - cbn [app phys cap_of fold_right] in *. destruct (Z.ltb_spec x (csize c)); [|lia]. do 2 f_equal. lia.
+  - inversion P as [|? ? Hp Pr]; subst. pose proof (sizes_pos_cap _ Pr). rewrite cap_of_cons in H.
+    cbn [app phys]. destruct (Z.ltb_spec x (csize p)); [lia|].
+    rewrite IH by (auto; lia). rewrite cap_of_cons. do 2 f_equal. lia.
+Qed.
+
+Lemma lread_phys d pre : forall c rest x n, sizes_pos pre -> 0 <= n -> cap_of pre <= x -> x + n <= cap_of pre + csize c ->
+  lread d (pre ++ c :: rest) x n = drd d (cstart c + HDR + (x - cap_of pre)) (Z.to_nat n).
+Proof.
+  induction pre as [|p r IH]; intros c rest x n P Hn Hx Hle.
+  - cbn [app cap_of fold_right] in *. rewrite lread_first by lia. do 2 f_equal. lia.
+  - inversion P as [|? ? Hp Pr]; subst. pose proof (sizes_pos_cap _ Pr). rewrite cap_of_cons in *.
+    cbn [app]. rewrite lread_skip by lia. rewrite IH by (auto; lia). do 2 f_equal. lia.
+Qed.
+
+(* an element never straddles two chunks: all sizes are multiples of the element size *)
+Lemma divide_cap fb cs : Forall (fun c => csize c mod fb = 0) cs -> 0 < fb -> (fb | cap_of cs).
+Proof.
+  intros H Hfb. induction H as [|c r Hc _ IH]; [exists 0; reflexivity|]. rewrite cap_of_cons.
+  apply Z.divide_add_r; auto. apply Z.mod_divide; [lia|auto].
+Qed.
+
+Lemma elem_fits fb past size p : 0 < fb -> (fb | past) -> (fb | size) -> past <= p * fb < past + size ->
+  p * fb + fb <= past + size.
+Proof.
+  intros Hfb [a Ha] [b Hb] H. subst. assert (p < a + b) by nia. nia.
+Qed.
+
+Lemma adjust_gt_ok' b o : 0 <= b -> 0 <= o -> b * DBS + o < 2 ^ 60 ->
+  exists q, adjust_gt (b, o) = Ok q /\ addr q = b * DBS + o /\ 0 <= fst q /\ 0 <= snd q.
+Proof.
+  intros Hb Ho Hs. unfold adjust_gt. simpl snd. destruct (Z.gtb_spec o DBS).
+  - rewrite adjust_ok by auto. eexists; split; [reflexivity|]. split; [apply addr_pnorm|].
+    assert (0 <= b * DBS) by (unfold DBS; lia). pose proof (pnorm_nonneg (b * DBS + o)). lia.
+  - eexists; split; [reflexivity|]. cbn [fst snd]. split; [reflexivity|lia].
+Qed.
+
+Lemma in_app_mid {A} (pre : list A) c rest : In c (pre ++ c :: rest).
+Proof. apply in_or_app. right. left. reflexivity. Qed.
+
+Lemma rmulti_ok d cs fb : Forall (chunk_at d) cs -> 0 < fb -> Forall (fun c => csize c mod fb = 0) cs ->
+  forall ps lk, lk_ok cs lk -> StronglySorted Z.lt ps ->
+  Forall (fun p => l_past lk <= p * fb /\ p * fb + fb <= cap_of cs) ps ->
+  rmulti ps lk fb d = Ok (flat_map (fun p => lread d cs (p * fb) fb) ps).
+Proof.
+  intros C Hfb Dv. assert (P : sizes_pos cs).
+  { eapply Forall_impl; [|exact C]. intros a Ha. apply (chunk_at_gp _ _ Ha). }
+  induction ps as [|p r IH]; intros lk L S F; [reflexivity|].
+  inversion S as [|? ? Sr Hlt]; subst. inversion F as [|? ? [Hp1 Hp2] Fr]; subst.
+  destruct L as (pre & E & Epast & Esize). cbn [rmulti]. rewrite Epast, Esize.
+  destruct (lookup_ok cs P (l_rest lk) (l_cur lk) pre (p * fb) E) as (lk1 & R & L1 & B1); [lia|].
+  rewrite R. cbn [bind]. destruct L1 as (pre1 & E1 & Epast1 & Esize1).
+  assert (Ppre1 : sizes_pos pre1).
+  { unfold sizes_pos in *. rewrite E1 in P. apply Forall_app in P. tauto. }
+  assert (Hc1 : chunk_at d (l_cur lk1)).
+  { rewrite Forall_forall in C. apply C. rewrite E1. apply in_app_mid. }
+  destruct Hc1 as (G1 & G2 & S1 & _). destruct (gp_nonneg _ G1) as (Hb & Ho & Ha). destruct (gp_nonneg _ G2) as (_ & _ & Ha2).
+  pose proof (csize_addr (l_cur lk1)) as Ecs. unfold cstart, cend, HDR in Ecs.
+  pose proof (addr_unfold (fst (l_cur lk1))) as Ea. assert (P60 : 2 ^ 44 + 2 ^ 44 < 2 ^ 60) by reflexivity.
+  unfold elem_ptr, TAG_SIZE, DPS.
+  destruct (adjust_gt_ok' (fst (fst (l_cur lk1))) (snd (fst (l_cur lk1)) + (4 + 12) + (p * fb - l_past lk1))) as (rb & Rb & Arb & _);
+    try lia.
+  rewrite Rb. cbn [bind].
+  rewrite (IH lk1); auto.
+  - cbn [bind flat_map]. f_equal. f_equal. unfold rd. rewrite Arb.
+    rewrite E1 at 1. rewrite lread_phys; auto; try lia.
+    + f_equal. unfold cstart, HDR. lia.
+    + rewrite <- Epast1, <- Esize1.
+      apply elem_fits; auto.
+      * rewrite Epast1. apply divide_cap; auto. rewrite E1 in Dv. apply Forall_app in Dv. tauto.
+      * rewrite Esize1. apply Z.mod_divide; [lia|]. rewrite Forall_forall in Dv. apply Dv. rewrite E1. apply in_app_mid.
+  - exists pre1. auto.
+  - rewrite Forall_forall in *. intros q Hq. specialize (Fr q Hq). specialize (Hlt q Hq). split; [nia|lia].
+Qed.
+
+Lemma rsingle_ok d c fb : chunk_at d c -> 0 < fb ->
+  forall ps prev bo, StronglySorted Z.lt ps -> Forall (fun p => prev <= p /\ p * fb + fb <= csize c) ps -> 0 <= prev ->
+  0 <= fst bo -> 0 <= snd bo -> addr bo = cstart c + HDR + prev * fb ->
+  rsingle ps prev bo fb d = Ok (flat_map (fun p => lread d [c] (p * fb) fb) ps).
+Proof.
+  intros (G1 & G2 & S1 & _) Hfb. destruct (gp_nonneg _ G1) as (Hb & Ho & Ha). destruct (gp_nonneg _ G2) as (_ & _ & Ha2).
+  pose proof (csize_addr c) as Ecs. unfold cstart, cend, HDR in *. assert (P60 : 2 ^ 44 + 2 ^ 44 < 2 ^ 60) by reflexivity.
+  induction ps as [|p r IH]; intros prev bo S F Hprev Hbb Hbo Abo; [reflexivity|].
+  inversion S as [|? ? Sr Hlt]; subst. inversion F as [|? ? [Hp1 Hp2] Fr]; subst.
+  cbn [rsingle]. pose proof (addr_unfold bo) as Ebo.
+  destruct (adjust_gt_ok' (fst bo) (snd bo + (p - prev) * fb)) as (bo1 & R1 & A1 & N1 & N2); try nia.
+  rewrite R1. cbn [bind]. rewrite (IH p bo1); auto; try nia.
+  - cbn [bind flat_map]. f_equal. f_equal. unfold rd. rewrite lread_first by nia. f_equal. unfold cstart, HDR. nia.
+  - rewrite Forall_forall in *. intros q Hq. specialize (Fr q Hq). specialize (Hlt q Hq). lia.
+Qed.
+
+(* ------------------------------------------------------------------ the selected positions (Hyperslab.v, property C05) *)
+Lemma dims_of_mk_sel dims : forall sel, length sel = length dims -> dims_of (mk_sel dims sel) = dims.
+Proof.
+  unfold dims_of, mk_sel. induction dims as [|a r IH]; intros [|s t] L; simpl in *; try discriminate; auto.
+  f_equal. apply IH. lia.
+Qed.
+
+Lemma lenZ_eq_length {A B} (a : list A) (b : list B) : lenZ a = lenZ b -> length a = length b.
+Proof. unfold lenZ. lia. Qed.
+
+Lemma prodZ_dims_pos dims : forallb (fun v => 1 <=? v) dims = true -> 1 <= prodZ dims.
+Proof.
+  intros H. apply prodZ_pos. rewrite forallb_forall in H. apply Forall_forall. intros x Hx. specialize (H x Hx).
+  destruct (Z.leb_spec 1 x); [lia|discriminate].
+Qed.
+
+Lemma sel_positions_facts h sel ps : dims_ok (h_dims h) = true -> sel_positions h sel = Ok ps ->
+  StronglySorted Z.lt ps /\ Forall (fun p => 0 <= p < prodZ (h_dims h)) ps.
+Proof.
+  intros D H. unfold sel_positions in H.
+  destruct (Z.eqb_spec (lenZ sel) (lenZ (h_dims h))) as [L|L]; [|discriminate]. cbn [negb] in H.
+  set (ds := mk_sel (h_dims h) sel) in *.
+  destruct (adf_walk w64 ds) as [e|ps'] eqn:W; [discriminate|]. inversion H; subst ps'.
+  assert (Ed : dims_of ds = h_dims h) by (apply dims_of_mk_sel, lenZ_eq_length; auto).
+  unfold dims_ok in D. apply andb_true_iff in D. destruct D as [D D3]. apply andb_true_iff in D. destruct D as [D1 D2].
+  assert (V : valid ds /\ (1 <= length ds <= 12)%nat).
+  { unfold adf_walk, count_total in W.
+    destruct ((Z.of_nat (length ds) <=? 0) || (12 <? Z.of_nat (length ds))) eqn:Rk; [discriminate|].
+    destruct (ctp_check ds) eqn:Ck; [discriminate|]. split; [now apply ctp_check_None|].
+    apply orb_false_iff in Rk. destruct Rk as [R1 R2].
+    destruct (Z.leb_spec (Z.of_nat (length ds)) 0); [discriminate|]. destruct (Z.ltb_spec 12 (Z.of_nat (length ds))); [discriminate|]. lia. }
+  destruct V as [V Rk].
+  assert (OK : sel_ok ds).
+  { split; [exact Rk|]. split; [exact V|]. rewrite Ed. pose proof (prodZ_dims_pos _ D2).
+    destruct (Z.ltb_spec (prodZ (h_dims h) * 16) (2 ^ 40)); [|discriminate].
+    assert (2 ^ 40 < 2 ^ 63) by reflexivity. lia. }
+  rewrite adf_walk_ok in W by auto. inversion W; subst ps.
+  split; [apply spec_positions_sorted; auto|]. rewrite <- Ed. apply spec_positions_range; auto.
+Qed.
+
+(* ------------------------------------------------------------------ ADF_Read_Data *)
+Lemma total_bytes_unfold h : total_bytes h = esz (h_ty h) * prodZ (h_dims h).
+Proof. reflexivity. Qed.
+
+Lemma read_strided_ok h d cs sel ps : Inv h d cs -> ready h cs -> dims_ok (h_dims h) = true ->
+  sel_positions h sel = Ok ps ->
+  read_strided fa h d sel = Ok (flat_map (fun p => lread d cs (p * esz (h_ty h)) (esz (h_ty h))) ps).
+Proof.
+  intros I (Ne & T & R) D SP. destruct (sel_positions_facts _ _ _ D SP) as [Srt Rng].
+  pose proof (chunks_of_inv _ _ _ I) as CO. destruct I as (N & C & _ & Dv & Z0 & M).
+  specialize (Z0 Ne). unfold read_strided. rewrite SP. cbn [bind].
+  destruct (Z.eqb_spec (esz (h_ty h)) 0); [lia|]. destruct (Z.eqb_spec (lenZ (h_dims h)) 0); [lia|]. cbn [orb].
+  set (fb := esz (h_ty h)) in *. rewrite total_bytes_unfold in T. fold fb in T.
+  assert (Rng' : Forall (fun p => 0 <= p /\ p * fb + fb <= cap_of cs) ps).
+  { eapply Forall_impl; [|exact Rng]. intros p Hp. cbn beta in Hp. split; [lia|nia]. }
+  destruct cs as [|c [|c2 r]]; [congruence| |].
+  - rewrite N. change (lenZ [c]) with 1. cbn [Z.eqb Pos.eqb]. rewrite M.
+    inversion C as [|? ? Hc _]; subst. cbn [cap_of fold_right] in Rng'. rewrite Z.add_0_r in Rng'.
+    destruct ps as [|p0 pr]; [reflexivity|].
+    pose proof Hc as (G1 & G2 & S1 & _). destruct (gp_nonneg _ G1) as (Hb & Ho & Ha). destruct (gp_nonneg _ G2) as (_ & _ & Ha2).
+    pose proof (csize_addr c) as Ecs. unfold cstart, cend, HDR in Ecs.
+    inversion Rng' as [|? ? [Q1 Q2] Rr]; subst. inversion Srt as [|? ? Sr Hlt]; subst.
+    pose proof (addr_unfold (fst c)) as Ea. assert (P60 : 2 ^ 44 + 2 ^ 44 < 2 ^ 60) by reflexivity.
+    unfold TAG_SIZE, DPS. rewrite adjust_ok by nia. cbn [bind].
+    apply (rsingle_ok d c fb Hc Z0 (p0 :: pr) p0); auto.
+    + constructor; [lia|]. rewrite Forall_forall in *. intros q Hq. specialize (Rr q Hq). specialize (Hlt q Hq). lia.
+    + pose proof (pnorm_nonneg (fst (fst c) * DBS + (snd (fst c) + 4 + 12 + p0 * fb))). nia.
+    + pose proof (pnorm_nonneg (fst (fst c) * DBS + (snd (fst c) + 4 + 12 + p0 * fb))). nia.
+    + rewrite addr_pnorm. unfold cstart, HDR. lia.
+  - destruct M as [Tb _]. rewrite N. pose proof (lenZ_nonneg r).
+    assert (L : lenZ (c :: c2 :: r) = lenZ r + 2) by (rewrite !lenZ_cons; ring). rewrite L.
+    destruct (Z.eqb_spec (lenZ r + 2) 0); [lia|]. destruct (Z.eqb_spec (lenZ r + 2) 1); [lia|].
+    rewrite <- L. rewrite (read_table_ok d (h_dc h) (c :: c2 :: r)) by (auto; lia). cbn [bind].
+    rewrite firstn_lenZ.
+    apply (rmulti_ok d (c :: c2 :: r) fb); auto.
+    + exists []. cbn [l_cur l_rest l_past l_size app cap_of fold_right]. auto.
+    + cbn [l_past]. eapply Forall_impl; [|exact Rng']. intros p Hp. cbn beta in *. nia.
+Qed.
+
+(* ------------------------------------------------------------------ allocation, release, small readers *)
+Lemma alloc_ok_step p r size d : 0 < size <= MAXSZ -> gp p ->
+  alloc (p :: r) size d = (Ok (p, r), dclr d (addr p) (Z.to_nat size)) /\
+  same_out d (dclr d (addr p) (Z.to_nat size)) (addr p) (addr p + size).
+Proof.
+  intros Hs G. destruct (gp_nonneg p G) as (_ & _ & Ha). unfold alloc.
+  destruct (Z.leb_spec size 0); [lia|]. destruct (Z.ltb_spec MAXSZ size); [lia|]. cbn [orb]. split; [reflexivity|].
+  pose proof (same_out_dclr d (addr p) (Z.to_nat size) (proj1 Ha)) as S. rewrite Z2Nat.id in S by lia. exact S.
+Qed.
+
+Lemma ptr_in_range_gp p : ptr_in_range p = true -> gp p /\ addr p < 2 ^ 43.
+Proof.
+  unfold ptr_in_range. intros H. repeat (apply andb_true_iff in H; destruct H as [H ?]).
+  destruct (Z.leb_spec 0 (fst p)); [|discriminate]. destruct (Z.ltb_spec (fst p) (2 ^ 31)); [|discriminate].
+  destruct (Z.leb_spec 0 (snd p)); [|discriminate]. destruct (Z.ltb_spec (snd p) DBS); [|discriminate].
+  assert (E : 2 ^ 31 < 2 ^ 32 /\ 2 ^ 43 = 2 ^ 31 * 4096) by (split; reflexivity). destruct E as [E1 E2].
+  split; [split; lia|]. rewrite addr_unfold. unfold DBS in *. lia.
+Qed.
+
+Lemma one_chunk_size_ok d c : chunk_at d c -> one_chunk_size fa d (fst c) = Ok (csize c).
+Proof.
+  intros (G1 & G2 & S & T1 & P & T2). destruct (gp_nonneg _ G1) as (Hb & Ho & Ha). destruct (gp_nonneg _ G2) as (Hb2 & Ho2 & Ha2).
+  unfold one_chunk_size. rewrite (read_chunk_length_holds d (fst c) tag_DaTa (snd c)); auto. cbn [bind].
+  rewrite tag4_refl_DaTa. cbn [negb]. pose proof (addr_unfold (fst c)) as Ea. pose proof (addr_unfold (snd c)) as Ee.
+  pose proof pow_facts as (P1 & _). unfold TAG_SIZE, DPS. rewrite adjust_ok by lia. cbn [bind]. f_equal.
+  set (ds := pnorm (fst (fst c) * DBS + (snd (fst c) + 4 + 12))).
+  assert (Eds : addr ds = addr (fst c) + 16) by (unfold ds; rewrite addr_pnorm; lia). pose proof (addr_unfold ds).
+  rewrite csize_addr. unfold cstart, cend, HDR. lia.
+Qed.
+
+Lemma own_end_ok d c : chunk_at d c ->
+  (t <- adjust (fst (fst c), snd (fst c) + TAG_SIZE) ;; read_ptr fa d t) = Ok (snd c).
+Proof.
+  intros (G1 & G2 & S & T1 & P & T2). destruct (gp_nonneg _ G1) as (Hb & Ho & Ha).
+  pose proof (addr_unfold (fst c)) as Ea. pose proof pow_facts as (P1 & _).
+  unfold TAG_SIZE. rewrite adjust_ok by lia. cbn [bind].
+  apply read_ptr_holds; auto. rewrite addr_pnorm.
+  replace (fst (fst c) * DBS + (snd (fst c) + 4)) with (cstart c + 4) by (unfold cstart; lia). exact P.
+Qed.
+
+Lemma two_entries_ok d c0 c1 : chunk_at d c0 -> chunk_at d c1 -> two_entries fa d (fst c0) (fst c1) = Ok [c0; c1].
+Proof.
+  intros H0 H1. unfold two_entries.
+  pose proof (own_end_ok d c0 H0) as E0. pose proof (own_end_ok d c1 H1) as E1.
+  destruct (adjust (fst (fst c0), snd (fst c0) + TAG_SIZE)) as [t0| | | | | | | | |]; try discriminate. cbn [bind] in *. rewrite E0. cbn [bind].
+  destruct (adjust (fst (fst c1), snd (fst c1) + TAG_SIZE)) as [t1| | | | | | | | |]; try discriminate. cbn [bind] in *. rewrite E1. cbn [bind].
+  now destruct c0, c1.
+Qed.
+
+Lemma file_free_table d t es : table_at d t es ->
+  exists d', file_free fa d t = (Ok tt, d') /\ same_out d d' (addr t) (addr t + 20 + 24 * lenZ es).
+Proof.
+  intros (G & Ge & Hs & T1 & P & B & T2). destruct (gp_nonneg t G) as (Hb & Ho & Ha).
+  pose proof (addr_unfold t) as Ea. pose proof (lenZ_nonneg es) as Hn. unfold HDR in *.
+  assert (Ge' : gp (pnorm (addr t + 16 + 24 * lenZ es))) by (apply gp_pnorm; lia).
+  set (e := pnorm (addr t + 16 + 24 * lenZ es)) in *.
+  assert (Ee : addr e = addr t + 16 + 24 * lenZ es) by apply addr_pnorm. pose proof (addr_unfold e) as Ue.
+  pose proof pow_facts as (P1 & _).
+  unfold file_free. rewrite (read_tag_holds d t tag_DCtb) by auto. cbn [bindO].
+  rewrite tag4_DCtb_DaTa, tag4_refl_DCtb. unfold TAG_SIZE. rewrite adjust_ok by lia. cbn [bindO].
+  rewrite (read_ptr_holds d _ e); auto.
+  2:{ rewrite addr_pnorm. replace (fst t * DBS + (snd t + 4)) with (addr t + 4) by lia. exact P. }
+  cbn [bindO]. rewrite (read_tag_holds d e tag_dcTE) by (auto; rewrite Ee; auto). cbn [bindO].
+  rewrite tag4_refl_dcTE. cbn [negb]. eexists. split; [reflexivity|].
+  replace ((fst e - fst t) * DBS + (snd e - snd t + 4)) with (20 + 24 * lenZ es) by lia.
+  pose proof (same_out_dclr d (addr t) (Z.to_nat (20 + 24 * lenZ es)) (proj1 Ha)) as S.
+  rewrite Z2Nat.id in S by lia. replace (addr t + 20 + 24 * lenZ es) with (addr t + (20 + 24 * lenZ es)) by ring. exact S.
+Qed.
+
+Lemma file_free_chunk d c : chunk_at d c ->
+  exists d', file_free fa d (fst c) = (Ok tt, d') /\ same_out d d' (cstart c) (cend c + 4).
+Proof.
+  intros (G1 & G2 & S & T1 & P & T2). destruct (gp_nonneg _ G1) as (Hb & Ho & Ha). destruct (gp_nonneg _ G2) as (Hb2 & Ho2 & Ha2).
+  pose proof (addr_unfold (fst c)) as Ea. pose proof (addr_unfold (snd c)) as Ee. pose proof pow_facts as (P1 & _).
+  pose proof (csize_addr c) as Ec. unfold cstart, cend, HDR in *.
+  unfold file_free. rewrite (read_tag_holds d (fst c) tag_DaTa) by auto. cbn [bindO].
+  rewrite tag4_refl_DaTa. unfold TAG_SIZE. rewrite adjust_ok by lia. cbn [bindO].
+  rewrite (read_ptr_holds d _ (snd c)); auto.
+  2:{ rewrite addr_pnorm. replace (fst (fst c) * DBS + (snd (fst c) + 4)) with (addr (fst c) + 4) by lia. exact P. }
+  cbn [bindO]. rewrite (read_tag_holds d (snd c) tag_dEnD) by auto. cbn [bindO].
+  rewrite tag4_refl_dEnD. cbn [negb]. eexists. split; [reflexivity|].
+  replace ((fst (snd c) - fst (fst c)) * DBS + (snd (snd c) - snd (fst c) + 4)) with (addr (snd c) + 4 - addr (fst c)) by lia.
+  pose proof (same_out_dclr d (addr (fst c)) (Z.to_nat (addr (snd c) + 4 - addr (fst c))) (proj1 Ha)) as SO.
+  rewrite Z2Nat.id in SO by lia. eapply same_out_weaken; [exact SO|lia|lia].
+Qed.
+
+(* ------------------------------------------------------------------ writing into an existing / a new chunk *)
+Lemma pnorm_cend c : gp (snd c) -> pnorm (cstart c + HDR + csize c) = snd c.
+Proof.
+  intros G. rewrite csize_addr. replace (cstart c + HDR + (cend c - cstart c - HDR)) with (cend c) by ring.
+  apply pnorm_addr. apply G.
+Qed.
+
+Lemma rewrite_chunk d c so n bs : chunk_at d c -> 0 <= so -> 0 <= n -> so + n <= csize c ->
+  exists d', write_data_chunk cf fa d (fst c) (csize c) so n (Some bs) = (Ok tt, d') /\ chunk_at d' c /\
+    holds d' (cstart c + HDR + so) (firstn (Z.to_nat n) bs) /\
+    (forall x, ~ (cstart c <= x < cstart c + HDR) -> ~ (cstart c + HDR + so <= x < cstart c + HDR + so + n) ->
+               ~ (cend c <= x < cend c + 4) -> dget d' x = dget d x).
+Proof.
+  intros (G1 & G2 & S & T1 & P & T2) Hso Hn Hle.
+  destruct (wdc_some d (fst c) (csize c) so n bs G1 S Hso Hn Hle) as (d' & R & A1 & A2 & A3 & A4 & A5).
+  fold (cstart c) in *. rewrite pnorm_cend in A2 by auto.
+  assert (Ee : cstart c + HDR + csize c = cend c) by (rewrite csize_addr; ring). rewrite Ee in *.
+  exists d'. split; [exact R|]. split; [|split; [exact A4|exact A5]].
+  unfold chunk_at. auto 10.
+Qed.
+
+(* the same with the zero fill, used only on new chunks; stated for any pointer *)
+Lemma fresh_chunk d p cb so n (data : option bytes) : gp p -> addr p < 2 ^ 43 -> 0 < cb < 2 ^ 40 -> 0 <= so -> 0 < n -> so + n <= cb ->
+  let c := (p, pnorm (addr p + HDR + cb)) in
+  exists d', write_data_chunk cf fa d p cb so n data = (Ok tt, d') /\ chunk_at d' c /\ csize c = cb /\
+    holds d' (addr p + HDR + so) (match data with Some bs => firstn (Z.to_nat n) bs | None => zeros n end) /\
+    same_out d d' (addr p) (addr p + HDR + cb + 4).
+Proof.
+  intros G Hp Hcb Hso Hn Hle c. destruct (gp_nonneg p G) as (_ & _ & Ha).
+  assert (P43 : 2 ^ 43 + 2 ^ 40 + 20 < 2 ^ 44) by reflexivity.
+  assert (Gc : gp (snd c)) by (apply gp_pnorm; unfold HDR; lia).
+  assert (Ec : cend c = addr p + HDR + cb) by (unfold cend, c; cbn [snd]; apply addr_pnorm).
+  assert (Es : csize c = cb) by (rewrite csize_addr, Ec; unfold cstart, c; cbn [fst]; ring).
+  assert (W : exists d', write_data_chunk cf fa d p cb so n data = (Ok tt, d') /\
+    holds d' (addr p) tag_DaTa /\ holds d' (addr p + 4) (dp_enc fa (pnorm (addr p + HDR + cb))) /\
+    holds d' (addr p + HDR + cb) tag_dEnD /\
+    holds d' (addr p + HDR + so) (match data with Some bs => firstn (Z.to_nat n) bs | None => zeros n end) /\
+    (forall x, ~ (addr p <= x < addr p + HDR) -> ~ (addr p + HDR + so <= x < addr p + HDR + so + n) ->
+               ~ (addr p + HDR + cb <= x < addr p + HDR + cb + 4) -> dget d' x = dget d x)).
+  { destruct data as [bs|]; [apply wdc_some|apply wdc_none]; auto; lia. }
+  destruct W as (d' & R & A1 & A2 & A3 & A4 & A5). exists d'. split; [exact R|].
+  split; [|split; [exact Es|split; [exact A4|]]].
+  - unfold chunk_at. rewrite Es, Ec. unfold cstart, c. cbn [fst snd]. auto 10.
+  - intros x Hx. apply A5; unfold HDR in *; lia.
+Qed.
+
+(* ------------------------------------------------------------------ frames *)
+Definition frame (d d' : disk) (R : Z -> Prop) : Prop := forall x, ~ R x -> dget d' x = dget d x.
+Definition in_ext (c : ptr * ptr) (x : Z) : Prop := cstart c <= x < cend c + 4.
+Definition in_exts (cs : list (ptr * ptr)) (x : Z) : Prop := exists c, In c cs /\ in_ext c x.
+
+Lemma frame_refl d R : frame d d R. Proof. intros x _. reflexivity. Qed.
+Lemma frame_trans d1 d2 d3 (R1 R2 R : Z -> Prop) :
+  frame d1 d2 R1 -> frame d2 d3 R2 -> (forall x, R1 x -> R x) -> (forall x, R2 x -> R x) -> frame d1 d3 R.
+Proof. intros A B H1 H2 x Hx. rewrite B, A; auto. Qed.
+Lemma frame_weaken d d' (R R' : Z -> Prop) : frame d d' R -> (forall x, R x -> R' x) -> frame d d' R'.
+Proof. intros A H x Hx. apply A. auto. Qed.
+Lemma same_out_frame d d' lo hi : same_out d d' lo hi -> frame d d' (fun x => lo <= x < hi).
+Proof. intros S x Hx. apply S. lia. Qed.
+Lemma frame_same_out d d' (R : Z -> Prop) lo hi : frame d d' R -> (forall x, R x -> lo <= x < hi) -> same_out d d' lo hi.
+Proof. intros F H x Hx. apply F. intros Rx. specialize (H x Rx). lia. Qed.
+
+Lemma holds_frame d d' a bs R : holds d a bs -> frame d d' R -> (forall x, a <= x < a + lenZ bs -> ~ R x) -> holds d' a bs.
+Proof. intros H F Hn i Hi. rewrite F; [apply H; auto|]. apply Hn. unfold lenZ. lia. Qed.
+
+Lemma chunk_at_frame d d' c R : chunk_at d c -> frame d d' R -> (forall x, in_ext c x -> ~ R x) -> chunk_at d' c.
+Proof.
+  intros (G1 & G2 & S & T1 & P & T2) F Hn. rewrite csize_addr in S. unfold HDR in S. unfold in_ext in Hn.
+  split; [exact G1|]. split; [exact G2|]. split; [rewrite csize_addr; unfold HDR; lia|]. split; [|split].
+  - apply (holds_frame d d' _ _ R T1 F). intros x Hx. apply Hn. change (lenZ tag_DaTa) with 4 in Hx. lia.
+  - apply (holds_frame d d' _ _ R P F). intros x Hx. apply Hn. rewrite lenZ_dp_enc in Hx. lia.
+  - apply (holds_frame d d' _ _ R T2 F). intros x Hx. apply Hn. change (lenZ tag_dEnD) with 4 in Hx. lia.
+Qed.
+
+Lemma table_at_frame d d' t es R : table_at d t es -> frame d d' R ->
+  (forall x, addr t <= x < addr t + 20 + 24 * lenZ es -> ~ R x) -> table_at d' t es.
+Proof.
+  intros (G & Ge & Hs & T1 & P & B & T2) F Hn. pose proof (lenZ_nonneg es). unfold HDR in *.
+  split; [exact G|]. split; [exact Ge|]. split; [exact Hs|]. split; [|split; [|split]].
+  - apply (holds_frame d d' _ _ R T1 F). intros x Hx. apply Hn. change (lenZ tag_DCtb) with 4 in Hx. lia.
+  - apply (holds_frame d d' _ _ R P F). intros x Hx. apply Hn. rewrite lenZ_dp_enc in Hx. lia.
+  - apply (holds_frame d d' _ _ R B F). intros x Hx. apply Hn. rewrite tbytes_len in Hx. lia.
+  - apply (holds_frame d d' _ _ R T2 F). intros x Hx. apply Hn. change (lenZ tag_dcTE) with 4 in Hx. lia.
+Qed.
+
+Lemma lread_frame d d' cs x n R : frame d d' R ->
+  (forall y a, x <= y < x + n -> phys cs y = Some a -> ~ R a) -> lread d' cs x n = lread d cs x n.
+Proof.
+  intros F H. unfold lread, zrange. destruct (Z.le_gt_cases n 0).
+  { replace (Z.to_nat n) with 0%nat by lia. reflexivity. }
+  apply map_zr_ext. intros y Hy. unfold absb. destruct (y <? 0); auto.
+  destruct (phys cs y) as [a|] eqn:E; auto. apply F. apply (H y a); auto. lia.
+Qed.
+
+(* physical addresses of logical bytes lie in the data area of a chunk of the list *)
+Lemma phys_in cs : forall x a, sizes_pos cs -> 0 <= x -> phys cs x = Some a ->
+  exists c, In c cs /\ cstart c + HDR <= a < cend c.
+Proof.
+  induction cs as [|c r IH]; intros x a P Hx E; [discriminate|]. inversion P as [|? ? Hc Pr]; subst.
+  cbn [phys] in E. destruct (Z.ltb_spec x (csize c)).
+  - inversion E; subst. exists c. split; [left; auto|]. rewrite csize_addr in *. lia.
+  - destruct (IH (x - csize c) a Pr ltac:(lia) E) as (c' & I' & B). exists c'. split; [right; auto|auto].
+Qed.
+
+Lemma Forall_chunk_sizes d cs : Forall (chunk_at d) cs -> sizes_pos cs.
+Proof. intros C. eapply Forall_impl; [|exact C]. intros a Ha. apply (chunk_at_gp _ _ Ha). Qed.
+
+Lemma pdisj_in c r : pdisj (map ext (c :: r)) -> forall c', In c' r -> forall x, in_ext c x -> ~ in_ext c' x.
+Proof.
+  intros [F _] c' I x Hx Hx'. cbn [map] in F. rewrite Forall_forall in F. specialize (F (ext c') (in_map ext _ _ I)).
+  unfold disj, ext, in_ext in *. cbn [fst snd] in F. lia.
+Qed.
+
+(* ------------------------------------------------------------------ ADF_Write_All_Data: the chunk loop *)
+Lemma lenZ_firstn_ge {A} (l : list A) n : 0 <= n <= lenZ l -> lenZ (firstn (Z.to_nat n) l) = n.
+Proof. intros H. unfold lenZ in *. rewrite firstn_length. lia. Qed.
+Lemma lenZ_skipn {A} (l : list A) n : 0 <= n <= lenZ l -> lenZ (skipn (Z.to_nat n) l) = lenZ l - n.
+Proof. intros H. unfold lenZ in *. rewrite skipn_length. lia. Qed.
+
+Lemma holds_lread_first d c r so bs : 0 <= so -> so + lenZ bs <= csize c -> holds d (cstart c + HDR + so) bs ->
+  lread d (c :: r) so (lenZ bs) = map Some bs.
+Proof.
+  intros Hso Hle H. pose proof (lenZ_nonneg bs). rewrite lread_first by lia. unfold lenZ. rewrite Nat2Z.id.
+  now apply holds_drd.
+Qed.
+
+Lemma in_exts_cons c r x : in_exts (c :: r) x <-> in_ext c x \/ in_exts r x.
+Proof.
+  unfold in_exts. split.
+  - intros (c' & [E|I] & H); [subst; auto|right; eauto].
+  - intros [H|(c' & I & H)]; [exists c; split; [left|]; auto|exists c'; split; [right|]; auto].
+Qed.
+
+Lemma wall_loop_ok : forall suf d data total, Forall (chunk_at d) suf -> pdisj (map ext suf) -> 0 < total -> total <= lenZ data ->
+  let m := Z.min total (cap_of suf) in
+  exists d', wall_loop cf fa suf d data total = (Ok (skipn (Z.to_nat m) data, total - m), d') /\
+    Forall (chunk_at d') suf /\ frame d d' (in_exts suf) /\
+    lread d' suf 0 m = map Some (firstn (Z.to_nat m) data).
+Proof.
+  induction suf as [|c r IH]; intros d data total C PD Ht Hd m.
+  - subst m. cbn [cap_of fold_right]. rewrite Z.min_r by lia. cbn [wall_loop Z.to_nat skipn].
+    exists d. rewrite Z.sub_0_r. split; [reflexivity|]. split; [constructor|]. split; [apply frame_refl|reflexivity].
+  - inversion C as [|? ? Hc Cr]; subst. pose proof (chunk_at_gp _ _ Hc) as (_ & _ & S).
+    pose proof (sizes_pos_cap _ (Forall_chunk_sizes _ _ Cr)) as Hr. destruct PD as [PD1 PDr].
+    cbn [wall_loop]. rewrite Hwall. set (cur := Z.min (csize c) total).
+    assert (Hcur : cur = Z.min (csize c) total) by reflexivity. clearbody cur.
+    destruct (rewrite_chunk d c 0 cur data Hc) as (d1 & R1 & C1 & H1 & F1); try lia.
+    rewrite R1. cbn [bindR]. assert (Em0 : m = Z.min total (csize c + cap_of r)) by reflexivity. clearbody m.
+    assert (Fr1 : frame d d1 (in_ext c)).
+    { pose proof (csize_addr c). intros x Hx. apply F1; unfold in_ext in Hx; unfold HDR in *; lia. }
+    assert (Cr1 : Forall (chunk_at d1) r).
+    { rewrite Forall_forall in *. intros c' I'. apply (chunk_at_frame d d1 c' (in_ext c)); auto.
+      intros x Hx Hx'. eapply (pdisj_in c r); eauto. split; auto. }
+    destruct (Z.leb_spec (total - cur) 0) as [Stop|Go].
+    + assert (Em : m = cur) by lia. assert (Ec : cur = total) by lia. rewrite Em.
+      exists d1. split; [reflexivity|]. split; [constructor; auto|]. split.
+      * eapply frame_weaken; [exact Fr1|]. intros x Hx. apply in_exts_cons. auto.
+      * rewrite <- (lenZ_firstn_ge data cur) at 1 by lia. apply holds_lread_first; [lia| |exact H1].
+        rewrite lenZ_firstn_ge by lia. lia.
+    + assert (Ec : cur = csize c) by lia.
+      destruct (IH d1 (skipn (Z.to_nat cur) data) (total - cur) Cr1 PDr) as (d' & R' & C' & F' & L'); try lia.
+      { rewrite lenZ_skipn by lia. lia. }
+      set (m' := Z.min (total - cur) (cap_of r)) in *. assert (Em : m = cur + m') by lia.
+      exists d'. split.
+      { rewrite R'. f_equal. f_equal; [|lia]. rewrite skipn_skipn. f_equal. lia. }
+      assert (Cc' : chunk_at d' c).
+      { apply (chunk_at_frame d1 d' c (in_exts r)); auto. intros x Hx (c' & I' & Hx').
+        eapply (pdisj_in c r); eauto. split; auto. }
+      split; [constructor; auto|]. split.
+      * eapply frame_trans; [exact Fr1|exact F'| |]; intros x Hx; apply in_exts_cons; auto.
+      * rewrite Em. rewrite lread_app by lia. rewrite Z.add_0_l.
+        rewrite Ec at 2. rewrite lread_skip by lia. rewrite Z.sub_diag. rewrite L'.
+        assert (Hh : holds d' (cstart c + HDR + 0) (firstn (Z.to_nat cur) data)).
+        { apply (holds_frame d1 d' _ _ (in_exts r) H1 F'). intros x Hx (c' & I' & Hx').
+          rewrite lenZ_firstn_ge in Hx by lia.
+          eapply (pdisj_in c r); eauto. split; auto. unfold in_ext. pose proof (csize_addr c). unfold HDR in *. lia. }
+        rewrite <- (lenZ_firstn_ge data cur) at 1 by lia.
+        rewrite holds_lread_first; [| lia | rewrite lenZ_firstn_ge by lia; lia | exact Hh ].
+        rewrite <- map_app. f_equal.
+        rewrite Z2Nat.inj_add by lia. rewrite <- firstn_skipn with (n := Z.to_nat cur) (l := firstn (Z.to_nat cur + Z.to_nat m') data).
+        rewrite firstn_firstn, Nat.min_l by lia. f_equal.
+        rewrite firstn_skipn_comm. reflexivity.
 Qed.
